@@ -3,7 +3,8 @@
    (b) undoing the escaping gives back exactly the input bytes: nothing lost, nothing repeated;
    (c) [OPML/ITMZ] the importer's own unescape function (xml.c print_xml_as_text) is the exact inverse (C14);
    (d) [U8] valid UTF-8 in -> valid UTF-8 out (C16).
-   FMT: 0 html text, 1 html with line breaks, 2 latex, 3 opendocument, 4 opendocument with line breaks, 5 opml source, 6 itmz source */
+   FMT: 0 html text, 1 html with line breaks, 2 latex, 3 opendocument, 4 opendocument with line breaks, 5 opml source, 6 itmz source,
+        7 html with e-mail obfuscation (7-bit characters become numeric references chosen by the generator; other bytes pass through) */
 #include "vh.h"
 #include <stdlib.h>
 #include <string.h>
@@ -20,10 +21,27 @@ void print_xml_as_text(DString *out, const char *source, size_t start, size_t le
 #ifndef N
 #define N 3
 #endif
-struct in { size_t len; char s[N]; size_t pre; } IN;
+struct in { size_t len; char s[N]; size_t pre; long rnd[N]; } IN;
 #include "vh_in.h"
+static int n_rnd;
+long ran_num_next(void) { long v = IN.rnd[n_rnd < N ? n_rnd : N - 1]; n_rnd++; ASSUME(v >= 0); return v; }
+void ran_start(long seed) {}
+#if FMT == 7
+#include <stdarg.h>
+/* the two formats the obfuscator uses, "&#%d;" and "&#x%x;", rendered directly (the general formatter of ds_model is needlessly expensive here) */
+void d_string_append_printf(DString *d, const char *f, ...) {
+	va_list ap; va_start(ap, f); unsigned v = (unsigned) va_arg(ap, int) & 0xff; va_end(ap);
+	int hex = (f[2] == 'x');
+	d_string_append_c(d, '&'); d_string_append_c(d, '#'); if (hex) d_string_append_c(d, 'x');
+	unsigned base = hex ? 16 : 10; char b[3]; int k = 0;
+	do { unsigned dg = v % base; b[k++] = (char) (dg < 10 ? '0' + dg : 'a' + dg - 10); v /= base; } while (v && k < 3);
+	while (k > 0) d_string_append_c(d, b[--k]);
+	d_string_append_c(d, ';');
+}
+void d_string_insert_printf(DString *d, size_t pos, const char *f, ...) {}
+#endif
 struct esc { const char *seq; char c; };
-#if FMT == 0 || FMT == 1
+#if FMT == 0 || FMT == 1 || FMT == 7
 static const struct esc T[] = { {"&quot;", '"'}, {"&amp;", '&'}, {"&lt;", '<'}, {"&gt;", '>'}, {"<br/>\n", '\n'} };
 static const char RES[] = "&<>\"";
 #elif FMT == 2
@@ -70,6 +88,8 @@ int main(void) {
 	mmd_print_string_opendocument(out, in, false);
 #elif FMT == 4
 	mmd_print_string_opendocument(out, in, true);
+#elif FMT == 7
+	mmd_print_string_html(out, in, true, false);
 #elif FMT == 5
 	mmd_print_source_opml(out, in, 0, len);
 #else
@@ -85,6 +105,15 @@ int main(void) {
 			size_t j = 0; while (j < MAXSEQ && T[k].seq[j] && p + j < ol && o[p + j] == T[k].seq[j]) j++;
 			if (!T[k].seq[j]) { if (dl <= N) dec[dl] = T[k].c; dl++; p += j; matched = 1; }
 		}
+#if FMT == 7
+		if (!matched && o[p] == '&' && p + 1 < ol && o[p + 1] == '#') {      /* numeric character reference emitted by the obfuscator */
+			size_t q = p + 2; unsigned v = 0; int hex = 0, digits = 0;
+			if (q < ol && o[q] == 'x') { hex = 1; q++; }
+			for (int g = 0; g < 4 && q < ol && o[q] != ';'; g++, q++) { char c = o[q]; unsigned dv = (c >= '0' && c <= '9') ? (unsigned) (c - '0') : (hex && c >= 'a' && c <= 'f') ? (unsigned) (c - 'a' + 10) : 99; CHECK(dv != 99, "numeric reference has only digits"); v = v * (hex ? 16 : 10) + dv; digits++; }
+			CHECK(q < ol && o[q] == ';' && digits >= 1 && v >= 1 && v <= 127, "obfuscation emits a well-formed reference to a 7-bit character");
+			if (dl <= N) dec[dl] = (char) v; dl++; p = q + 1; matched = 1;
+		}
+#endif
 		if (!matched) {
 			int reserved = 0; for (unsigned r = 0; RES[r]; r++) if (o[p] == RES[r]) reserved = 1;
 			CHECK(!reserved, "a character reserved in the target format appears only inside an escape the writer emitted");
@@ -103,7 +132,7 @@ int main(void) {
 #ifdef U8
 	CHECK(utf8_ok((unsigned char *) o, ol, 20 * N), "valid UTF-8 in -> valid UTF-8 out");
 #endif
-#if FMT >= 5
+#if FMT == 5 || FMT == 6
 	/* C14: the importer's unescape is the exact inverse of the exporter's escape */
 	DString *back = d_string_new("");
 	print_xml_as_text(back, out->str, 0, out->currentStringLength);
